@@ -10,7 +10,10 @@ import TracklibVerif.Drv.Util
       the rows joined by `;`, operators joined by `|` ; or `err:raised` when Python would raise
   cell <mode> <bx0> <bx1> <by0> <by1> <rx> <ry> <margin> <x> <y>
       the raster built on the bounding box [bx0,bx1]x[by0,by1]
-      reply: `xmin xmax ymin ymax ncol nrow <col:line or none>` -/
+      reply: `xmin xmax ymin ymax ncol nrow <col:line or none>`
+  agg <mode> <vals> <ops>
+      the cell operators applied to one list of values (`nan` allowed, `_` = empty list)
+      reply: one value per operator, `,`-separated, `nan` for NaN -/
 namespace TV.Drv.C19
 open TV.Raster TV.Drv
 
@@ -55,6 +58,11 @@ def runCell (floor ceil : α → Int) (rd : String → Option α) (sh : α → S
     let g := mkGrid ceil bx0 bx1 by0 by1 rx ry mg
     s!"{sh g.xmin} {sh g.xmax} {sh g.ymin} {sh g.ymax} {g.ncol} {g.nrow} {showCell (getCell floor g x y)}"
   | _ => "bad-request"
+
+def runAgg (rd : String → Option α) (sh : α → String) (vals ops : String) : String :=
+  match (splitTok vals ',').mapM (fun w => if w == "nan" then some none else (rd w).map some), ops.toList.mapM op? with
+  | some V, some O => showList (fun op => match cellValue op V with | none => "nan" | some a => sh a) O
+  | _, _ => "bad-request"
 end generic
 
 def handle (cmd : String) (args : List String) : String :=
@@ -62,6 +70,10 @@ def handle (cmd : String) (args : List String) : String :=
   | "sum", [mode, xs, ys, vals, rx, ry, margin, ops] =>
     if mode == "f" then runSum fFloor fCeil (-99999.0 : Float) float? showFloat xs ys vals rx ry margin ops
     else if mode == "q" then runSum Rat.floor Rat.ceil (-99999 : Rat) rat? showRat xs ys vals rx ry margin ops
+    else "bad-request"
+  | "agg", [mode, vals, ops] =>
+    if mode == "f" then runAgg float? showFloat vals ops
+    else if mode == "q" then runAgg rat? showRat vals ops
     else "bad-request"
   | "cell", mode :: rest =>
     if mode == "f" then runCell fFloor fCeil float? showFloat rest
